@@ -48,14 +48,15 @@ const (
 )
 
 type freeSummary struct {
-	acq, rel, maxIn   int64
-	tryFail, ctxErr   int64
-	panics, otherErr  int64
-	firstOverlap      string
-	firstPanic        string
-	residue           []string
-	hung              bool
-	dur               time.Duration
+	acq, rel, maxIn  int64
+	tryFail, ctxErr  int64
+	panics, otherErr int64
+	firstOverlap     string
+	firstPanic       string
+	residue          []string
+	hung             bool
+	setup            string
+	dur              time.Duration
 }
 
 func runFreeOnce(c *Case) *freeSummary {
@@ -66,7 +67,7 @@ func runFreeOnce(c *Case) *freeSummary {
 	if c.Redis {
 		mr, err := miniredis.Run()
 		if err != nil {
-			sum.hung = true
+			sum.setup = "miniredis: " + err.Error()
 			return sum
 		}
 		defer mr.Close()
@@ -263,6 +264,10 @@ func RunFree(c *Case) *Result {
 	hangs := 0
 	for attempt := 0; attempt < 3; attempt++ {
 		sum = runFreeOnce(c)
+		if sum.setup != "" {
+			res.Discard = sum.setup
+			return res
+		}
 		if sum.hung {
 			hangs++
 			continue
@@ -292,10 +297,8 @@ func RunFree(c *Case) *Result {
 	if sum.acq != sum.rel && !sum.hung {
 		res.Direct = append(res.Direct, Direct{What: "Unlock of a held lock panicked", Detail: fmt.Sprintf("%d acquisitions, %d Unlock calls returned; first panic: %s", sum.acq, sum.rel, sum.firstPanic)})
 	}
-	if c.Prop == "C04" || sum.maxIn <= 1 {
-		for _, r := range sum.residue {
-			res.Direct = append(res.Direct, Direct{What: "residue", Detail: "free-running stream: " + r})
-		}
+	for _, r := range sum.residue {
+		res.Direct = append(res.Direct, Direct{What: "residue", Detail: "free-running stream: " + r})
 	}
 	res.Counts["free:acquisitions"] = int(sum.acq)
 	res.Counts["free:trylock-false"] = int(sum.tryFail)
